@@ -114,8 +114,8 @@ NOTE['C02'] = 'Kernels only (command search order; break/continue levels). Trust
 TECH['C02'] = 'contract-based deductive verification (Verus, Z3) of classify / search / resolve_builtin and of break/continue run + bounded Kani harness-encoded contract of Stack::loop_count on the real crate'
 
 LEVEL_TEXT['C17'] = 'Eligibility kernel only. Unbounded deductive proof (Verus) that Parser::substitute_alias replaces exactly the eligible tokens (unquoted literal word token; alias of that name exists; not already inside its own replacement; command position, global alias or after a blank-ending alias value) and that the recursion guard Source::is_alias_for is membership in the chain of alias origins, for chains of every depth. Termination and the resulting token sequence depend on the lexer splice and the async restart protocol and are not decided; level other because the claim is a kernel.'
-NOTE['C17'] = 'Eligibility kernel only. Trusted: Verus/Z3; ghost-map model of the glossary; reduced models of Word / Location / Source; lexer calls external_body. Not covered: LexerCore::substitute_alias (splice), is_after_blank_ending_alias, restart protocol, keyword recognition in replacement text, alias/unalias built-ins.'
-TECH['C17'] = 'contract-based deductive verification (Verus, Z3) of Parser::substitute_alias (eligibility as an iff) and Source::is_alias_for (structural recursion)'
+NOTE['C17'] = 'Eligibility kernel only. Trusted: Verus/Z3; ghost-map model of the glossary; reduced models of Word / Location / Source; lexer calls external_body. Not covered: LexerCore::substitute_alias (splice), restart protocol, keyword recognition in replacement text, alias/unalias built-ins.'
+TECH['C17'] = 'contract-based deductive verification (Verus, Z3) of Parser::substitute_alias (eligibility as an iff), LexerCore::is_after_blank_ending_alias (loop invariant over the line buffer) and Source::is_alias_for (structural recursion)'
 
 LEVEL_TEXT['C05'] = 'One mechanism only. Unbounded deductive proof (Verus) that the conversion of a field into pattern characters (Chars::next inside to_pattern) drops quoting characters, keeps every other character in order, and makes a character literal if and only if it was quoted, results from a tilde / hard expansion, or follows an unquoted backslash: quoted text is never a wildcard. The directory search, the matching against entries, the leading-period rule, sorting and the no-match fallback run over the file system and the regex engine and are not decided; level other because the claim is one kernel.'
 NOTE['C05'] = 'Kernel only (field -> pattern characters). Trusted: Verus/Z3, vstd iterator model; the loop over the inner iterator checked as while-let; local items lifted out of the function. Not covered: search_dir / push_component, glob() fallback and sort, literal_period, noglob, the file system.'
